@@ -59,7 +59,7 @@ ticks; cases are distinct by structural hash of (program IR, history)."
     }
     let tier = ctx.tier();
     let cfg = GenCfg { max_ops: tier.pick(8, 12), ..GenCfg::default() };
-    let n_hist = tier.pick(8, 32);
+    let n_hist = tier.pick(6, 32);
     // (1) every (operator, persistence) cell in isolation, pull side and behind tee()
     {
         let mut rng0 = Rng::new(ctx.seed_for(SUB_CELLS) ^ 0x5151);
@@ -67,7 +67,7 @@ ticks; cases are distinct by structural hash of (program IR, history)."
         cells.reverse();
         let labels: std::cell::RefCell<std::collections::BTreeMap<u64, String>> = Default::default();
         let n_cells = cells.len();
-        let cell_hist = tier.pick(6, 24);
+        let cell_hist = tier.pick(5, 24);
         let floor_before = ctx.floor;
         drive(
             ctx,
@@ -92,7 +92,7 @@ ticks; cases are distinct by structural hash of (program IR, history)."
     // (2) random programs
     drive(
         ctx,
-        Drive { extra_prefix: "", sub: SUB, batch: format!("C21-{}", tier.name()), n_prog: tier.pick(64, 1500), chunk: tier.pick(64, 250), floor: tier.pick(40, 1000) },
+        Drive { extra_prefix: "", sub: SUB, batch: format!("C21-{}", tier.name()), n_prog: tier.pick(40, 1500), chunk: tier.pick(40, 250), floor: tier.pick(40, 1000) },
         |rng, cov| {
             let prog = gen_prog(rng, cov, &cfg);
             let scripts = (0..n_hist)
